@@ -350,7 +350,21 @@ func Grammar(rng *rand.Rand) *Scn {
 	n := 1 + rng.Intn(12)
 	for i := 0; i < n; i++ {
 		var s string
-		switch rng.Intn(14) {
+		terms := []string{"\x1b\\", "\x07", "\x18", "\x1a", "\x1b\\", "\x1bB", "\x1b[1m"}
+		switch rng.Intn(17) {
+		case 14: // a lone ESC \ (the Alt+\ key, or a string terminator without a string)
+			s = "\x1b\\"
+		case 15: // a device control string cut short in its prefix, or one that is ignored (':' among the parameters)
+			switch rng.Intn(3) {
+			case 0:
+				s = "\x1bP" + randParams(rng) + randInter(rng) + []string{"\x18", "\x1a"}[rng.Intn(2)]
+			case 1:
+				s = "\x1bP1:2" + randFinal(rng) + randPayload(rng) + terms[rng.Intn(len(terms))]
+			default:
+				s = "\x1bP" + randParams(rng) + terms[rng.Intn(len(terms))]
+			}
+		case 16: // privacy message / start of string, ended every possible way
+			s = []string{"\x1b^", "\x1bX"}[rng.Intn(2)] + randPayload(rng) + terms[rng.Intn(len(terms))]
 		case 0, 1:
 			priv := ""
 			if rng.Intn(3) == 0 {
